@@ -331,3 +331,38 @@ Definition apply_op_notrunc (s : dir) (o : op) : dir :=
   | _ => apply_op s o
   end.
 Definition apply_ops_notrunc (s : dir) (l : list op) : dir := fold_left apply_op_notrunc l s.
+
+(* ------------------------------------------------------------------ names of the persisted requests *)
+(* <id>.info on disk; loadAsyncSearches recovers the key of the request from the file name:
+   requestID = filename[:len(filename)-len(".info")]. IDs are byte strings (as lists of N). *)
+Definition dot_info : list N := [46; 105; 110; 102; 111].            (* ".info" *)
+Definition info_name (id : list N) : list N := id ++ dot_info.
+Definition id_of_name (name : list N) : list N := firstn (length name - length dot_info) name.
+(* a regression seen in review: strings.TrimRight(filename, ".info") strips every trailing byte that
+   occurs in ".info" *)
+Fixpoint drop_while_in (set l : list N) : list N :=
+  match l with
+  | [] => []
+  | x :: r => if existsb (N.eqb x) set then drop_while_in set r else l
+  end.
+Definition id_of_name_trimset (name : list N) : list N := rev (drop_while_in dot_info (rev name)).
+(* after a restart the request is found iff <id>.info parses AND it is registered under its own id *)
+Definition found_as (id : list N) (s : dir) : bool :=
+  found s && (fix eqb (a b : list N) : bool :=
+                match a, b with
+                | [], [] => true
+                | x :: a', y :: b' => (x =? y) && eqb a' b'
+                | _, _ => false
+                end) (id_of_name (info_name id)) id.
+
+(* ------------------------------------------------------------------ the query across a restart *)
+(* the request is persisted with the query as TEXT (the AST is dropped at load time); doSearch parses it
+   again with the mapping of the store (as.mp.GetMapping()). parse and search are oracles. *)
+Section Query.
+  Context {text mapping ast : Type}.
+  Variable parse : text -> mapping -> ast.
+  Variable search : ast -> N -> qpr.
+  (* partial result of fraction f: in the run that started the search / in a resumed run *)
+  Definition started_result (q : text) (m : mapping) (f : N) : qpr := search (parse q m) f.
+  Definition resumed_result (q : text) (m_at_resume : mapping) (f : N) : qpr := search (parse q m_at_resume) f.
+End Query.
